@@ -383,14 +383,17 @@ class Topology(System):
                             if idx == 0:
                                 interaction.parameters[:] = new_param[:]
                                 interaction.meta.update(meta)
+                                # type tables can use #define macros as well
+                                replace_defined_interaction(interaction, self.defines)
                             # however, sometimes a single interaction term needs to be
                             # expanded (i.e. a single statment spwans multiple interactions)
                             # In that case we update the parameters of the first term and
                             # need to add the other interactions additionally
                             else:
                                 new_interaction = Interaction(atoms=tuple(interaction.atoms),
-                                                              parameters=new_param,
+                                                              parameters=new_param[:],
                                                               meta=meta)
+                                replace_defined_interaction(new_interaction, self.defines)
                                 additional_interactions[inter_type].append(new_interaction)
 
 
